@@ -204,8 +204,8 @@ def rule_token(ctx) -> RuleResult:
         raise AnalysisError(f"R-TOKEN: only {nsites} explicitly named layer sites found (hand-confirmed: 10)")
     # ---------------- (2) token completeness per tokenizing function
     for q in ("core.dask_groupby_agg", "core.subset_to_blocks"):
-        if q not in tokenizing_funcs:
-            raise AnalysisError(f"R-TOKEN: {q} no longer builds a name from tokenize(...) (anchor vanished)")
+        if q not in tokenizing_funcs and not any(f_.func == q for f_ in res.findings):
+            raise AnalysisError(f"R-TOKEN: {q} no longer builds a name from tokenize(...) and no constant name was found either (anchor vanished)")
     for q, tcalls in sorted(tokenizing_funcs.items()):
         f = prog.funcs[q]
         cl = Closure(ctx, f)
